@@ -15,10 +15,11 @@ CLAIMS = {
     "C01": ("proof", "Proved (all inputs, no bound): build_expression.expr2symbols denotes the reference meaning T of the grammar's arithmetic "
             "nodes and of functions of arity <= 2 (left fold of + - * /, unary sign, **, variables, literals, pi, Conditional, "
             "ContinuousConditional), binary_op/unary_op/relational_to_piecewise/Conditional meanings, CodeGenerator.rhs emits exactly "
-            "rhs_emit over sorted_assignments with the unpack statements of the sorted states/parameters. Bounded (skeleton instances): "
+            "rhs_emit over sorted_assignments with the unpack statements of the sorted states/parameters; lemma L2 (induction): executing a "
+            "single-assignment statement list in dependency order leaves every target equal to the value of its definition. Bounded (skeleton instances): "
             "numpy printer overrides and the python method template. Assumed: sympy constructors/printer, lark precedence. "
             "Bounded stand-in: 400+ generated models against an independent reference evaluator.",
-            "the straight-line evaluation lemma L2 (topological order => every intermediate denotes its definition) is not machine-proved"),
+            "environment algebra of L2 (update / frame) assumed; composition L3 of L1, L2 and the emit specs into one statement about the printed text is a paper argument"),
     "C02": ("proof", "Proved: C argument builders exhaustively over all 6+24 argument orders, gotran2c.get_code assembles every part with every option, "
             "emission functions shared with C01/C04. Bounded: C templates compiled and called on instances (index functions return the table entry "
             "and -1). The C-specific arithmetic clauses (integer literals, fmod sign, abs on integers) are decided only by the bounded stand-in, "
@@ -101,8 +102,8 @@ CLAIMS = {
             "Bounded stand-in runs `python -m gotranx` in scratch directories.",
             "typer parsing and exit status assumed; read_config body not under contract"),
     "C20": ("proof", "Proved: states_matrix lists symbols of sorted_states (same order as state_index); rhs_matrix returns for every acyclic model "
-            "(no RuntimeError for any depth: loop variant), with every intermediate expanded, obtained from the derivative expressions by "
-            "xreplace passes; jacobi_matrix is jacobian(rhs_matrix, states_matrix).",
+            "(no RuntimeError for any depth: loop variant), with every intermediate and every referenced state derivative expanded, obtained "
+            "from the derivative expressions by xreplace passes; jacobi_matrix is jacobian(rhs_matrix, states_matrix).",
             "sympy Matrix/xreplace/has/jacobian assumed; numeric equality checked by the bounded stand-in (finite differences)"),
 }
 
